@@ -11,6 +11,7 @@
     repr <m:int> <k> (<kr>)*k <sort>                                   → str(descriptor)
     addr_raw <m> <net> <k> (<kr>)*k <offset> <change> <sortkeys>        get_address on the attributes as given
                                                                        (an object whose key_records were mutated)
+    match_desc <text> | match_kr <text>                                 the two regular expressions alone (groups)
     parse <text>                                                       → descriptor dump
     parse_addr <text> <offset> <change:0|1>
     p2wsh <m> <k> (<sec>)*k <net>                                      → address of m <keys as given> n CHECKMULTISIG
@@ -106,6 +107,16 @@ def handle : List String → String
         let d : Desc := { m := m, keyRecords := krs, network := net, text := [], checksum := [] }
         pure (orReject ((getAddress h256 s256 hmac h160 d off chg sk).map fmtS))
       | _ => none
+  | ["match_desc", t] => optS do
+      let t ← parseS t
+      pure <| orReject do
+        let (a, b, c) ← matchDescriptor t
+        pure s!"{fmtS a} {fmtS b} {(c.map fmtS).getD "-"}"
+  | ["match_kr", t] => optS do
+      let t ← parseS t
+      pure <| orReject do
+        let (a, b, c) ← matchKeyRecord t
+        pure s!"{fmtS a} {fmtS b} {fmtS c}"
   | ["parse", t] => optS do
       let t ← parseS t
       pure (orReject ((parse h256 hmac h160 t).map dump))
